@@ -192,6 +192,21 @@ Proof.
   exists S, T, V. exact H.
 Qed.
 
+Example C11_empty_ex :
+  reachable (init false false) /\ files (init false false) = [] /\
+  snd (get_shape (init false false)) = Err EInvalidStack.
+Proof. split; [apply (ex_reach false false [])|]. split; reflexivity. Qed.
+
+Example C11_queries_ex :
+  snd (get_data ex_gap) = Err EInvalidStack /\ snd (get_affine ex_gap) = Err EInvalidStack /\
+  snd (to_nifti ex_gap (Some true) true) = Err EInvalidStack /\
+  is_ok (snd (to_nifti ex_grid (Some true) true)) = true.
+Proof. split; [vm_compute; reflexivity|]. split; [vm_compute; reflexivity|]. split; vm_compute; reflexivity. Qed.
+
+Example C11_add_transactional_ex :
+  step ex_grid (OAdd (fl 9 0 (Some 1%Q) None 10)) = (ex_grid, Err ECollision).
+Proof. apply C11_add_transactional. vm_compute. reflexivity. Qed.
+
 Example C11_add_ex :
   add_dcm ex_grid (fl 9 0 (Some 1%Q) None 10) = Err ECollision /\
   add_dcm ex_grid (mkfile 9 false 2 3 [] [] (q 0) None None [] None None 1 12 false) = Err ENonImage /\
